@@ -57,6 +57,25 @@ pub fn main() {
             let part_name = v["part"].as_str().unwrap_or("core");
             let tier = v["tier"].as_str().and_then(Tier::parse).unwrap_or(Tier::Quick);
             let prop = crate::props::find(id).expect("property");
+            if part_name == "regress" {
+                let name = v["regress_case"].as_str().unwrap_or("");
+                let Some((_, f)) = crate::regress::cases_for(id).into_iter().find(|(n, _)| *n == name) else {
+                    eprintln!("unknown regression case {name}");
+                    std::process::exit(2);
+                };
+                println!("case: {}", name);
+                match f() {
+                    Some(viol) => {
+                        println!("expected: {}\nobserved: {}", viol.expected, viol.observed);
+                        println!("VIOLATION property={} replay={} signature={}", id, path, viol.signature);
+                        std::process::exit(1);
+                    }
+                    None => {
+                        println!("no violation on this tree");
+                        std::process::exit(0);
+                    }
+                }
+            }
             if part_name == "prog" {
                 if !crate::macro_l2::is_generated_corpus() {
                     std::process::exit(crate::c19prog::replay_prog(&v, path));
